@@ -270,7 +270,7 @@ func (r *c29Runner) Step(t []string, o *Oracle) string {
 		defer func() { r.useKept = false }()
 		o.Count("stateful-" + t[0])
 		return r.Step(t2, o)
-	case "mv", "dec", "pcfor":
+	case "mv", "mvu", "dec", "pcfor":
 		return c29MapStep(t, o)
 	case "verify":
 		if len(t) != 5 || !c29PathOK(t[1]) {
@@ -627,23 +627,28 @@ func c29Gen(g *Gen) {
 // ---- btp/proofcontextmap.go through the real map ----
 
 type c29NTView struct {
-	uid string
-	pc  []byte
+	uid  string
+	pc   []byte
+	open []int64
 }
 
 func (v *c29NTView) UID() string                  { return v.uid }
 func (v *c29NTView) NextProofContextHash() []byte { return nil }
 func (v *c29NTView) NextProofContext() []byte     { return v.pc }
-func (v *c29NTView) OpenNetworkIDs() []int64      { return nil }
+func (v *c29NTView) OpenNetworkIDs() []int64      { return v.open }
 
 type c29StateView struct {
 	ids   []int64
 	views map[int64]*c29NTView
+	nets  map[int64]*c29NetView
 }
 
 func (v *c29StateView) GetNetworkTypeIDs() ([]int64, error) { return v.ids, nil }
 func (v *c29StateView) GetNetworkView(nid int64) (btp.NetworkView, error) {
-	return nil, fmt.Errorf("not used")
+	if n, ok := v.nets[nid]; ok {
+		return n, nil
+	}
+	return nil, fmt.Errorf("no network %d", nid)
 }
 func (v *c29StateView) GetNetworkTypeView(ntid int64) (btp.NetworkTypeView, error) {
 	return v.views[ntid], nil
@@ -781,8 +786,42 @@ func c29MapStep(t []string, o *Oracle) string {
 		return fmt.Sprintf("ok %d:%d", u, pc.NewProof().ValidatorCount())
 	}
 	// mv <pcm> <src> <height> <round> <digests> <proofs>
+	// mvu ... <inactivated>/<changed>: the same vote is verified, then the map is Updated with a
+	// builder-made section (inactivated network types, network types whose proof context
+	// changes), then the SAME (pre-update) map verifies the vote again
+	upd := ""
+	if t[0] == "mvu" {
+		if len(t) != 8 {
+			return "bad-op"
+		}
+		upd = t[7]
+		t = t[:7]
+	}
 	if len(t) != 7 {
 		return "bad-op"
+	}
+	var inact, changed []int64
+	if upd != "" {
+		ps := strings.Split(upd, "/")
+		if len(ps) != 2 {
+			return "bad-op"
+		}
+		for k, part := range ps {
+			if part == "_" {
+				continue
+			}
+			for _, x := range strings.Split(part, ",") {
+				v, err := strconv.ParseInt(x, 10, 64)
+				if err != nil {
+					return "bad-op"
+				}
+				if k == 0 {
+					inact = append(inact, v)
+				} else {
+					changed = append(changed, v)
+				}
+			}
+		}
 	}
 	es, ok := c29ParsePcm(t[1])
 	src, ok1 := c29HexOpt(t[2])
@@ -898,7 +937,9 @@ func c29MapStep(t []string, o *Oracle) string {
 	for i, d := range ds {
 		ntds[i] = &c29NTD{ntid: d.ntid, hash: d.hash}
 	}
-	verr := pcm.Verify(src, height, int32(round), &c29Digest{ntds: ntds}, proofs)
+	verify := func() error {
+		return pcm.Verify(src, height, int32(round), &c29Digest{ntds: ntds}, proofs)
+	}
 
 	// ---- property oracle from the symbolic input ----
 	var reg []int // indices of digest entries with a registered context
@@ -941,6 +982,7 @@ func c29MapStep(t []string, o *Oracle) string {
 			}
 		}
 	}
+	finish := func(verr error) string {
 	if verr == nil {
 		o.Count("mv-ok")
 		o.Check(expect, "c29-map-accepted-"+why, "vote accepted although %s", why)
@@ -971,6 +1013,91 @@ func c29MapStep(t []string, o *Oracle) string {
 		return "err-verify " + idx("verify fail voteIndex=") + " " + cls
 	}
 	return "err-unknown"
+	}
+	out1 := finish(verify())
+	if upd == "" {
+		return out1
+	}
+	// Update with a section built by the real SectionBuilder; the receiver (the map of the
+	// block being finalised, pcmForLastBlock) must keep answering as before
+	view := &c29StateView{views: map[int64]*c29NTView{}, nets: map[int64]*c29NetView{}}
+	isIn := func(l []int64, v int64) bool {
+		for _, x := range l {
+			if x == v {
+				return true
+			}
+		}
+		return false
+	}
+	builder := btp.NewSectionBuilder(view)
+	for _, e := range es {
+		path := "ek"
+		if e.uid == "icon" {
+			path = "ik"
+		}
+		vals := e.vals
+		if isIn(changed, e.ntid) {
+			vals = append(append([]int{}, e.vals...), 700+int(e.ntid%50)) // one more validator
+		}
+		bs := c29Context(path+"b", vals).Bytes()
+		if bs == nil {
+			bs = []byte{0xc1, 0xc0}
+		}
+		view.ids = append(view.ids, e.ntid)
+		view.views[e.ntid] = &c29NTView{uid: e.uid, pc: bs, open: []int64{e.ntid}}
+		view.nets[e.ntid] = &c29NetView{ntid: e.ntid, changed: isIn(changed, e.ntid)}
+		builder.EnsureSection(e.ntid)
+	}
+	for _, v := range inact {
+		builder.NotifyInactivated(v)
+	}
+	section, err := builder.Build()
+	if err != nil {
+		panic(err)
+	}
+	pcm2, err := pcm.Update(c29UpdateSource{section})
+	if err != nil {
+		panic(err)
+	}
+	o.Count("map-update")
+	out2 := finish(verify())
+	o.Check(out1 == out2, "c29-map-update-changed-receiver", "the same vote on the same map: %q before Update, %q after", out1, out2)
+	var regNew []string
+	for _, e := range es {
+		_, err0 := pcm.ProofContextFor(e.ntid)
+		o.Check(err0 == nil, "c29-map-update-changed-receiver", "context of network type %d vanished from the pre-update map", e.ntid)
+		pc2, err2 := pcm2.ProofContextFor(e.ntid)
+		o.Check((err2 != nil) == isIn(inact, e.ntid), "c29-map-update-wrong-result", "updated map: type %d registered=%v, inactivated=%v", e.ntid, err2 == nil, isIn(inact, e.ntid))
+		if err2 == nil {
+			regNew = append(regNew, fmt.Sprintf("%d:%d", e.ntid, pc2.NewProof().ValidatorCount()))
+		}
+	}
+	nw := "-"
+	if len(regNew) > 0 {
+		nw = strings.Join(regNew, ",")
+	}
+	return out1 + " | " + out2 + " | new " + nw
+}
+
+type c29NetView struct {
+	ntid    int64
+	changed bool
+}
+
+func (v *c29NetView) Name() string                   { return fmt.Sprintf("net-%d", v.ntid) }
+func (v *c29NetView) Owner() module.Address          { return nil }
+func (v *c29NetView) NetworkTypeID() int64           { return v.ntid }
+func (v *c29NetView) Open() bool                     { return true }
+func (v *c29NetView) NextMessageSN() int64           { return 1 }
+func (v *c29NetView) NextProofContextChanged() bool  { return v.changed }
+func (v *c29NetView) PrevNetworkSectionHash() []byte { return nil }
+func (v *c29NetView) LastNetworkSectionHash() []byte { return nil }
+
+type c29UpdateSource struct{ s module.BTPSection }
+
+func (u c29UpdateSource) BTPSection() (module.BTPSection, error) { return u.s, nil }
+func (u c29UpdateSource) NextProofContextMap() (module.BTPProofContextMap, error) {
+	return nil, fmt.Errorf("not used")
 }
 
 // ---- generator for the map ops ----
@@ -1105,5 +1232,34 @@ func c29GenMap(g *Gen) {
 		return strings.Join(xs, ";")
 	}
 	src := []string{"n", "3078", hx(g.Bytes(6))}[g.Intn(3)]
+	if g.Intn(3) == 0 {
+		// the map is Updated between two verifications of the same vote: inactivation only,
+		// proof-context change only, both, none; also types not in the map
+		pick := func(p int) string {
+			var l []string
+			for _, e := range es {
+				if g.Intn(p) == 0 {
+					l = append(l, strconv.FormatInt(e.ntid, 10))
+				}
+			}
+			if g.Intn(8) == 0 {
+				l = append(l, "99")
+			}
+			if len(l) == 0 {
+				return "_"
+			}
+			return strings.Join(l, ",")
+		}
+		in := pick(2)
+		ch := "_"
+		if g.Intn(2) == 0 {
+			ch = pick(3)
+		}
+		if ch == "99" || strings.HasSuffix(ch, ",99") {
+			ch = "_"
+		}
+		g.Emit("mvu %s %s %d %d %s %s %s/%s", join(etxt), src, g.Pick(1, 100, 1<<40), g.Pick(0, 1, 7), join(dtxt), join(ptxt), in, ch)
+		return
+	}
 	g.Emit("mv %s %s %d %d %s %s", join(etxt), src, g.Pick(1, 100, 1<<40), g.Pick(0, 1, 7), join(dtxt), join(ptxt))
 }
